@@ -8,6 +8,8 @@ let n_of_int (i : int) : n = if i = 0 then N0 else Npos (pos_of_int i)
 let rec int_of_pos = function XH -> 1 | XO p -> 2 * int_of_pos p | XI p -> 2 * int_of_pos p + 1
 let int_of_n = function N0 -> 0 | Npos p -> int_of_pos p
 
+let starts_with s p = String.length s >= String.length p && String.sub s 0 (String.length p) = p
+let rec nat_of_int (i : int) : nat = if i <= 0 then O else S (nat_of_int (i - 1))
 let words s = List.filter (fun x -> x <> "") (String.split_on_char ' ' s)
 
 let byte_tbl : n array = Array.init 256 n_of_int
@@ -236,11 +238,37 @@ let run_pair toks =
     let ro = match !p.p_r.r_phase with RDone o -> outcome_text o | _ -> "runaway" in
     let file = match recv_final_file rc !p.p_r with None -> "absent" | Some w -> fp_text (List.concat (List.rev w)) in
     Printf.sprintf "s=%s r=%s file=%s nsr=%s nrs=%s" so ro file (dec_of_n !p.p_sr.ch_n) (dec_of_n !p.p_rs.ch_n)
+  | [_; blk; ws; tmo; rep_s; rep_r; fspec; "-"; "-"; cap] when starts_with cap "cap=" ->
+    (* receive capacity: only the first [cap] datagrams of every burst of the sender arrive *)
+    let cap = nat_of_int (int_of_string (String.sub cap 4 (String.length cap - 4))) in
+    let sc = { s_blk = n_of_dec blk; s_ws = n_of_dec ws; s_tmo = n_of_dec tmo; s_rep = n_of_dec rep_s; s_check = false; s_fails = [] } in
+    let rc = { r_blk = n_of_dec blk; r_ws = n_of_dec ws; r_tmo = n_of_dec tmo; r_rep = n_of_dec rep_r; r_clean = true; r_fails = [] } in
+    let p = ref (pair_init_cap sc rc cap (file_of_spec fspec)) in
+    let steps = ref 0 and go = ref true in
+    while !go && !steps < 3000000 do
+      (match pair_step_cap sc rc cap !p with Some p' -> p := p'; incr steps | None -> go := false)
+    done;
+    let so = match !p.p_s.s_phase with SDone o -> outcome_text o | _ -> "runaway" in
+    let ro = match !p.p_r.r_phase with RDone o -> outcome_text o | _ -> "runaway" in
+    let file = match recv_final_file rc !p.p_r with None -> "absent" | Some w -> fp_text (List.concat (List.rev w)) in
+    Printf.sprintf "s=%s r=%s file=%s nsr=%s nrs=%s" so ro file (dec_of_n !p.p_sr.ch_n) (dec_of_n !p.p_rs.ch_n)
   | _ -> failwith "bad pair case"
 
 (* C04 on the implementation's result *)
 let mon_pair prop case impl =
   match words case, words impl with
+  | [_; _; ws; _; rep_s; _; fspec; _; _; cap], [s; r; file; _; _] when starts_with cap "cap=" ->
+    let cap = int_of_string (String.sub cap 4 (String.length cap - 4)) in
+    let want = fp_text (file_of_spec fspec) in
+    let s_ok = (s = "s=ok") and r_ok = (r = "r=ok") and f_ok = (file = "file=" ^ want) in
+    if r_ok && not f_ok then "fail:completed-upload-with-wrong-content"
+    else if s_ok && not r_ok then "fail:sender-succeeded-but-receiver-did-not"
+    else if s_ok && r_ok then "pass"
+    else if cap >= int_of_string ws * int_of_string rep_s then "fail:transfer-within-the-receive-capacity-failed"
+    (* a window that does not fit the receiver's buffer: the sender goes back to the window's start for ever (finding D8).
+       For C04 more than the retry budget of consecutive receives fail: outside its premise. *)
+    else if prop = "C14" then "known:window-larger-than-receive-capacity"
+    else "pass"
   | [_; _; _; _; rep_s; rep_r; fspec; fsr; frs], [s; r; file; _; nrs] ->
     let nf x = if x = "-" then 0 else List.length (String.split_on_char ',' x) in
     let total = nf fsr + nf frs in
@@ -433,7 +461,6 @@ let run_srv toks =
   | _ -> failwith "bad srv case"
 
 (* ---- SRV monitors: property-level checks on the implementation's trace ---- *)
-let starts_with s p = String.length s >= String.length p && String.sub s 0 (String.length p) = p
 let ends_with s p = String.length s >= String.length p && String.sub s (String.length s - String.length p) (String.length p) = p
 
 (* split the flat token list of an srv result into per-step records *)
